@@ -45,13 +45,14 @@ Proof.
   destruct (lookup_export_in _ _ _ Hl) as (_ & Hi & _).
   destruct (wire E (p_dt p) (rq_data rq) (prev_of c p)) as [v|e] eqn:Hw; [|left; reflexivity].
   pose proof (wire_sound E (p_dt p) (W p Hi) _ _ _ (prev_of_ok md c p C Hi) Hw) as Sv.
+  destruct (reply_export_same p (write_wrapper hook p v c (rq_drv rq))) as (_ & _ & _ & Ec). rewrite Ec. clear Ec.
   pose proof (write_wrapper_cases hook p v c (rq_drv rq)) as H. cbn zeta in H.
   destruct H as [(e & _ & ->)|[(nv & hl & e & _ & _ & ->)|(nv & hl & Hv & _ & H)]]; try (left; reflexivity).
   pose proof (validate_sound (p_dt p) (W p Hi) v PNone nv (or_introl eq_refl) Hv) as Snv.
   destruct H as [[_ ->]|(_ & _ & _ & H)].
-  - right. exists p, nv. auto.
+  - right. exists p, nv. rewrite store_cache. auto.
   - destruct H as [(_ & _ & ->)|[(_ & _ & -> & _)|(x & -> & Hx)]]; try (left; reflexivity).
-    right. exists p, x. repeat split; auto.
+    right. exists p, x. rewrite store_cache. repeat split; auto.
     destruct Hx as [[_ ->]|(r & _ & Hr)]; [exact Sv|].
     exact (validate_sound (p_dt p) (W p Hi) r PNone x (or_introl eq_refl) Hr).
 Qed.
